@@ -538,6 +538,17 @@ def mem_exprs(q, rng):
         ]
         for t in templates:
             e.append((t[0] % tuple(t[1:]), False))
+    # values whose in-flight form is small but whose finalised form is big (frozen dicts, tuples at the boundary)
+    n0 = max((q - 40) // 8, 1)
+    for d in (-3, -1, 0, 1, 3, 40):
+        e.append(('range(%d).toList()' % (n0 + d), False))
+        e.append(('range(%d).select($)' % (n0 + d), False))
+        e.append(('[range(%d).toList()]' % (n0 + d), False))
+    for n in (q // 100 + 1, q // 30 + 1, C(q // 8 + 1)):
+        e += [('range(%d).toDict($, $)' % n, False), ('dict(range(%d).select([$, $]))' % n, False),
+              ('range(%d).toSet()' % n, False), ('range(%d).groupBy($ mod 3)' % n, False),
+              ('{a => range(%d).toDict($, $)}' % n, False), ("range(%d).select(str($)).join(',')" % n, False),
+              ('range(%d).aggregate($1.set($2, $2), {})' % min(n, 1500), False)]
     e += [("'a' * %d" % big, True), ("%d * 'a'" % big, True), ('[0] * %d' % big, True), ('%d * [0, 1]' % big, True),
           ("'abc' * %d" % (big * 1000), True), ('[[1], [2]] * %d' % big, True), ('[] * %d' % big, False),
           ("'' * %d" % big, False)]
